@@ -7,6 +7,7 @@ import Genq.Model.Main
 import Genq.Model.Ws
 import Genq.Model.Doc
 import Genq.Model.Files
+import Genq.Model.Config
 open Lean
 namespace Genq.Driver
 
@@ -268,6 +269,17 @@ def opFiles (op : String) (j : Json) : Except String Json := do
     return Json.mkObj [("out", Json.arr ((Files.merged files).map Json.str).toArray)]
   | _ => throw s!"unknown op {op}"
 
+def opConfig (op : String) (j : Json) : Except String Json := do
+  match op with
+  | "config.casing" =>
+    let enums ← match j.getObjVal? "enums" with
+      | .ok (.obj kvs) => kvs.toList.mapM fun (k, v) => do pure (k, ← v.getStr?)
+      | _ => pure []
+    let c : Config.Casing := { default := (← getStr j "default"), allEnums := (← getStr j "allEnums"), enums := enums }
+    let name ← getStr j "enum"
+    return Json.mkObj [("validate", c.validate), ("forEnum", c.forEnum name), ("panics", Config.enumValueNamePanics c name)]
+  | _ => throw s!"unknown op {op}"
+
 def dispatch (j : Json) : Json :=
   let r : Except String Json := do
     let op ← getStr j "op"
@@ -278,6 +290,7 @@ def dispatch (j : Json) : Json :=
     else if op.startsWith "ws." then opWs op j
     else if op.startsWith "doc." then opDoc op j
     else if op.startsWith "files." then opFiles op j
+    else if op.startsWith "config." then opConfig op j
     else throw s!"unknown op {op}"
   let idf := match j.getObjVal? "id" with | .ok v => [("id", v)] | .error _ => []
   match r with
